@@ -92,123 +92,95 @@ fn effect(who: PlayerNum, pc: f64, pp: [f64; 2], st: [f64; 2], u: [f64; 2]) -> E
     }
 }
 
-/// Skeleton A: one decision node of either player over two terminals.
+/// The decision-node kernel of both traversals (`recurse_player`, called by recurse_single and
+/// recurse_multi with a closure for the recursion): children worth u0, u1 to player one.
+/// Returns (node value to player one, what the caller subtracts from every regret); adds the signed,
+/// reach-weighted action values to the regrets; passes on the reach with only the acting player's
+/// component multiplied by the action probability.
 #[kani::proof]
 #[kani::unwind(3)]
-fn c08_step_single_player_node() {
+fn c08_step_recurse_player() {
     let who = any_player();
     let u = [pay(), pay()];
     let a: f64 = if kani::any() { 0.25 } else { 0.5 };
     let st = [a, 1.0 - a];
     let (pc, pp) = (q3(), [q3(), q3()]);
     let r0 = [1.0, -2.0];
-    let s0 = [0.5, 1.5];
-    let node = Node::Player(Player { num: who, infoset: 0, actions: Box::new([Node::Terminal(u[0]), Node::Terminal(u[1])]) as Box<[Node]> });
-    let mine = [info2(r0, s0, st)];
-    let other = [info2([7.0, 7.0], [7.0, 7.0], [0.5, 0.5])];
-    let chance: [FullChance<'static>; 0] = [];
-    let infos: [&[RefCell<RegretInfoset>]; 2] = match who {
-        PlayerNum::One => [&mine[..], &other[..]],
-        PlayerNum::Two => [&other[..], &mine[..]],
-    };
-    let v = recurse_single(&node, &chance[..], infos, pc, pp);
+    let mut r = r0;
+    let node = Player { num: who, infoset: 0, actions: Box::new([Node::Terminal(u[0]), Node::Terminal(u[1])]) as Box<[Node]> };
+    let seen = core::cell::Cell::new(0u32);
+    let reach_ok = core::cell::Cell::new(true);
+    let (value, sub) = recurse_player(&node, pc, pp, &st, r.iter_mut(), |next, p_next| {
+        let idx = seen.get() as usize;
+        seen.set(seen.get() + 1);
+        let (own, other) = match who {
+            PlayerNum::One => (0, 1),
+            PlayerNum::Two => (1, 0),
+        };
+        if idx >= 2 || !core::ptr::eq(next, &node.actions[idx]) || p_next[own] != pp[own] * st[idx] || p_next[other] != pp[other] {
+            reach_ok.set(false);
+        }
+        match next {
+            Node::Terminal(x) => *x,
+            _ => 0.0,
+        }
+    });
     let e = effect(who, pc, pp, st, u);
     kani::cover!(matches!(who, PlayerNum::Two) && pc == 0.25 && pp[0] == 0.5 && u[0] != u[1] && a == 0.25, "player two below a chance outcome of probability 1/4");
     kani::cover!(matches!(who, PlayerNum::One) && pp[1] == 0.5 && u[0] > u[1], "player one with opponent reach 1/2");
-    assert!(near(v, e.value), "C08 step: node value is not the strategy-weighted value of the children");
-    let m = mine[0].borrow();
+    assert!(seen.get() == 2 && reach_ok.get(), "C08 step: every action must be explored once, in order, with only the acting player's reach multiplied by its probability");
+    assert!(near(value, e.value), "C08 step: node value is not the strategy-weighted value of the children");
     for i in 0..2 {
-        assert!(near(m.cum_regret[i], r0[i] + e.dreg[i]), "C08 step: regret increment is not chance-reach x opponent-reach x (action value - node value), signed for the acting player");
-        assert!(near(m.cum_strat[i], s0[i] + e.dstrat[i]), "C08 step: average-strategy increment is not own-reach x current strategy");
-        assert!(m.strat[i] == st[i], "C08 step: traversal changed the current strategy");
+        assert!(near(r[i] - sub, r0[i] + e.dreg[i]), "C08 step: regret increment is not chance-reach x opponent-reach x (action value - node value), signed for the acting player");
     }
-    let o = other[0].borrow();
-    assert!(o.cum_regret[0] == 7.0 && o.cum_strat[1] == 7.0, "C08 step: traversal touched the other player's infoset");
-    drop(m);
-    drop(o);
     core::mem::forget(node);
-    core::mem::forget(mine);
-    core::mem::forget(other);
 }
 
-/// Same step through the multi-threaded traversal without a payoff cache: identical effect.
+/// Average-strategy accumulation: own reach x current strategy (plain and mutex infoset).
 #[kani::proof]
 #[kani::unwind(3)]
-fn c06_step_multi_player_node() {
-    let who = any_player();
-    let u = [pay(), pay()];
+fn c08_step_update_cum_strat() {
     let a: f64 = if kani::any() { 0.25 } else { 0.5 };
     let st = [a, 1.0 - a];
-    let (pc, pp) = (q3(), [q3(), q3()]);
-    let r0 = [1.0, -2.0];
+    let own = q3();
     let s0 = [0.5, 1.5];
-    let node = Node::Player(Player { num: who, infoset: 0, actions: Box::new([Node::Terminal(u[0]), Node::Terminal(u[1])]) as Box<[Node]> });
-    let mut mine = [minfo2(r0, s0, st)];
-    let other = [minfo2([7.0, 7.0], [7.0, 7.0], [0.5, 0.5])];
-    let chance: [FullChance<'static>; 0] = [];
-    let v = {
-        let infos: [&[MutexRegretInfoset]; 2] = match who {
-            PlayerNum::One => [&mine[..], &other[..]],
-            PlayerNum::Two => [&other[..], &mine[..]],
-        };
-        recurse_multi(&node, &chance[..], infos, pc, pp, &())
+    let mut plain = RegretInfoset {
+        cum_regret: Box::new([1.0, -2.0]) as Box<[f64]>,
+        cum_strat: Box::new(s0) as Box<[f64]>,
+        strat: Box::new(st) as Box<[f64]>,
     };
-    let e = effect(who, pc, pp, st, u);
-    kani::cover!(matches!(who, PlayerNum::Two) && pc == 0.25 && pp[0] == 0.5 && u[0] != u[1] && a == 0.25, "player two below a chance outcome of probability 1/4");
-    assert!(near(v, e.value), "C06 step: multi-thread traversal value differs from the single-thread one");
+    PlayerRecurse::update_cum_strat(&mut plain, own);
+    let mut mt = minfo2([1.0, -2.0], s0, st);
+    MutexPlayerRecurse::update_cum_strat(&mt, own);
+    kani::cover!(own == 0.25 && a == 0.25, "reach 1/4, strategy (1/4, 3/4)");
+    let cs = mt.cum_strat.get_mut().unwrap();
     for i in 0..2 {
-        let rg = *mine[0].cum_regret[i].get_mut();
-        assert!(near(rg, r0[i] + e.dreg[i]), "C06 step: multi-thread regret increment differs from the single-thread one");
+        assert!(near(plain.cum_strat[i], s0[i] + own * st[i]), "C08 step: average-strategy increment is not own-reach x current strategy");
+        assert!(near(cs[i], s0[i] + own * st[i]), "C06 step: multi-thread average-strategy increment differs from the single-thread one");
+        assert!(plain.cum_regret[i] == [1.0, -2.0][i] && plain.strat[i] == st[i], "C08 step: average-strategy update touched regrets or the current strategy");
     }
-    let cs = mine[0].cum_strat.get_mut().unwrap();
-    for i in 0..2 {
-        assert!(near(cs[i], s0[i] + e.dstrat[i]), "C06 step: multi-thread average-strategy increment differs from the single-thread one");
-    }
-    core::mem::forget(node);
-    core::mem::forget(mine);
-    core::mem::forget(other);
+    core::mem::forget(plain);
+    core::mem::forget(mt);
 }
 
-/// Skeleton B: chance node (1/4, 3/4) over a decision node and a terminal: the value is the
-/// probability-weighted sum over ALL outcomes (no sampling), and the child is entered with the
-/// chance reach multiplied by its outcome probability.
+/// The unsampled method enumerates every chance outcome with its declared probability, in order.
 #[kani::proof]
-#[kani::unwind(3)]
-fn c08_step_single_chance_node() {
-    let who = any_player();
-    let u = [pay(), pay()];
-    let u2 = pay();
-    let a: f64 = if kani::any() { 0.25 } else { 0.5 };
-    let st = [a, 1.0 - a];
-    let (pc, pp) = (q3(), [q3(), q3()]);
-    let r0 = [1.0, -2.0];
-    let s0 = [0.5, 1.5];
-    let first: bool = kani::any(); // decision node is the first (prob 1/4) or second (prob 3/4) outcome
-    let dec = Node::Player(Player { num: who, infoset: 0, actions: Box::new([Node::Terminal(u[0]), Node::Terminal(u[1])]) as Box<[Node]> });
-    let outcomes: Box<[Node]> = if first { Box::new([dec, Node::Terminal(u2)]) } else { Box::new([Node::Terminal(u2), dec]) };
-    let node = Node::Chance(Chance { outcomes, infoset: 0 });
-    let probs = [0.25, 0.75];
-    let chance = [FullChance(&probs)];
-    let mine = [info2(r0, s0, st)];
-    let other: [RefCell<RegretInfoset>; 0] = [];
-    let infos: [&[RefCell<RegretInfoset>]; 2] = match who {
-        PlayerNum::One => [&mine[..], &other[..]],
-        PlayerNum::Two => [&other[..], &mine[..]],
-    };
-    let v = recurse_single(&node, &chance[..], infos, pc, pp);
-    let pdec = if first { 0.25 } else { 0.75 };
-    let e = effect(who, pc * pdec, pp, st, u);
-    kani::cover!(!first && matches!(who, PlayerNum::Two) && pc == 1.0 && pp[0] == 1.0, "player two below the 3/4 outcome from the root");
-    kani::cover!(first && matches!(who, PlayerNum::One), "player one below the 1/4 outcome");
-    assert!(near(v, pdec * e.value + (1.0 - pdec) * u2), "C08 step: chance node value is not the probability-weighted sum over every outcome");
-    let m = mine[0].borrow();
-    for i in 0..2 {
-        assert!(near(m.cum_regret[i], r0[i] + e.dreg[i]), "C08 step: regret below a chance node is not weighted by the chance reach (incl. the outcome probability)");
-        assert!(near(m.cum_strat[i], s0[i] + e.dstrat[i]), "C08 step: chance probability leaked into the average-strategy weight");
+#[kani::unwind(4)]
+fn c10_full_chance_enumerates_all() {
+    let probs = [0.25, 0.5, 0.25];
+    let node = Chance { outcomes: Box::new([Node::Terminal(1.0), Node::Terminal(2.0), Node::Terminal(3.0)]) as Box<[Node]>, infoset: 0 };
+    let fc = FullChance(&probs);
+    let mut n = 0usize;
+    let mut ok = true;
+    for (p, next) in fc.next_nodes(&node) {
+        if n >= 3 || *p != probs[n] || !core::ptr::eq(next, &node.outcomes[n]) {
+            ok = false;
+        }
+        n += 1;
     }
-    drop(m);
+    kani::cover!(n == 3, "three outcomes");
+    assert!(n == 3 && ok, "C10 full: the unsampled traversal must visit every chance outcome with its declared probability");
     core::mem::forget(node);
-    core::mem::forget(mine);
 }
 
 #[cfg(test)]
